@@ -277,6 +277,14 @@ def run_property(prop, tier="quick", repo="/repo", seed=0, update_baseline=False
                 lines.append("UNDECIDED property=%s obligation=%s reason=no-path-returns-normally "
                              "(postconditions hold vacuously)" % (prop, k))
                 undecided += 1
+    if not only:
+        # listed findings this run could not exercise (they are only reachable by the deeper sampling
+        # of the thorough tier): still named, so every listed finding of the property appears
+        for e in known:
+            if e.get("status") == "known" and e.get("property") == prop and e.get("tier") == "thorough" \
+                    and tier != "thorough" and e.get("id") not in known_hits:
+                lines.append("KNOWN-FINDING: property=%s %s [%s; listed, exercised by the thorough tier only]"
+                             % (prop, e.get("what", e.get("obligation")), e.get("id")))
     if baseline is not None and not only:
         missing = [b for b in baseline if b not in status]
         for b in missing[:20]:
